@@ -35,7 +35,11 @@ impl Binders for PatId {
             | Pattern::Project(ProjectionPattern(_, pattern)) => pattern.binders(arena),
             | Pattern::Alias(Alias(pat)) | Pattern::Cons(pat) => pat
                 .iter()
-                .fold(im::HashMap::new(), |binders, item| binders.union(item.binders(arena))),
+                // components bind left to right: a later binder shadows an earlier one
+                .fold(im::HashMap::new(), |mut binders, item| {
+                    binders.extend(item.binders(arena));
+                    binders
+                }),
         }
     }
 }
